@@ -45,6 +45,36 @@ def overlap(params):
             "note": "searched the adversarial label family of this dtype (labels near 2^8, 2^16, 2^24, dtype max)"}
 
 
+def overlap_layout(params):
+    """the candidate pairs must not depend on the memory layouts of the two arrays (C / Fortran / negative strides, mixed)"""
+    from panoptica._functionals import _calc_overlapping_labels
+    dtype = params.get("dtype", "uint8")
+    rng = np.random.RandomState(11)
+    bad = []
+    lay = {"C": np.ascontiguousarray, "F": np.asfortranarray, "neg": lambda a: np.ascontiguousarray(a[::-1])[::-1], "T-view": lambda a: np.ascontiguousarray(a.T).T}
+    for _ in range(40):
+        shape = tuple(rng.randint(2, 5, size=rng.randint(2, 4)))
+        pred = rng.randint(0, 4, size=shape).astype(dtype)
+        ref = rng.randint(0, 4, size=shape).astype(dtype)
+        if not ref.any():
+            continue
+        want = spec_pairs(pred, ref)
+        for lp, fp_ in lay.items():
+            for lr, fr in lay.items():
+                try:
+                    got = sorted(_calc_overlapping_labels(fp_(pred), fr(ref), tuple(np.unique(ref[ref != 0]))))
+                except Exception as e:
+                    got = f"raised {type(e).__name__}: {e}"[:100]
+                if got != want:
+                    bad.append({"pred": pred.tolist(), "ref": ref.tolist(), "layouts": [lp, lr], "got": str(got), "want": str(want)})
+                    break
+            if bad:
+                break
+        if len(bad) >= 2:
+            break
+    return {"violated": bool(bad), "problems": bad[:2]}
+
+
 def crop(params):
     from panoptica._functionals import _get_paired_crop
     dtype = params["dtype"]
